@@ -75,8 +75,11 @@ def run(ck):
         return content, exp
 
     keys = sorted(set("".join(x["k"]) for x in table[0]["c"]["content"]))
-    hs = ck.drive(b, ["hash"], input_lines=[keys])[0]["o"]
-    khash = {k: int(h) for k, h in zip(keys, hs)}
+    # the letters of the specification are stored as these bytes: themselves, and the extreme byte values
+    ALPHABETS = [None, {"a": "ff", "b": "00", "c": "fe"}, {"a": "00", "b": "ff", "c": "80"}]
+    hss = ck.drive(b, ["hash"], input_lines=[{"keys": keys, "alphabet": al} for al in ALPHABETS])
+    khashes = [{k: int(h) for k, h in zip(keys, x["o"])} for x in sorted(hss, key=lambda x: x["i"])]
+    khash = khashes[0]
 
     # ---- selection of (content, ring) pairs
     cases = []          # (driver input, expected list per prefix)
@@ -103,14 +106,15 @@ def run(ck):
         nring = 0
         for at in range(0, len(sel), per_ring):
             n = 1 + nring % 4
-            ids = ring_ids(ck.rng, n, list(khash.values()), (nring // 4) % 4)
+            ai = (nring // 2) % len(ALPHABETS)
+            ids = ring_ids(ck.rng, n, list(khashes[ai].values()), (nring // 4) % 4)
             stores = stores_for(ck.rng, n, nring)
             order = ck.seed * 100000 + nring
             nring += 1
             for ci in sel[at:at + per_ring]:
                 content, exp = norm(table[ci])
                 cases.append(({"ids": [str(i) for i in ids], "stores": stores, "order": order, "content": content,
-                               "prefixes": [p for p, _ in exp], "reuse": True}, exp))
+                               "prefixes": [p for p, _ in exp], "reuse": True, "alphabet": ALPHABETS[ai]}, exp))
         ck.extra["rings_built"] = nring
     outs = ck.drive(b, [], input_lines=[c for c, _ in cases], timeout=3000)
     byi = {o["i"]: o["o"] for o in outs if "i" in o}
@@ -131,6 +135,7 @@ def run(ck):
             raise vf.Infra("storing the content through the stable ring %s failed: %s" % (c["ids"], bad_store[:3]))
         if not o.get("cleaned"):
             unclean += 1
+        khash = khashes[ALPHABETS.index(c.get("alphabet"))]
         stored = [(x["k"], kd) for x in c["content"] for kd in x["kinds"]]
         owners = set(owner(ids, khash[k]) for k, _ in stored if k in khash)
         ck.count(json.dumps([c["ids"], c["stores"], c["content"]]), len(stored) > 0)
@@ -162,8 +167,8 @@ def run(ck):
                 cls = "extra:%s" % "+".join(sorted(set(x[1] for x in extra)))
             ck.violation("C10:%s" % cls,
                          "ListKeys(%r) asked at node %d (id %d) of the stable %d-node ring %s (stores %s, keys held by node index %s) returned %s; "
-                         "stored content is %s, so exactly %s is expected (missing %s, unexpected %s, duplicated %s)"
-                         % (p, node, ids[node], len(ids), ids, c["stores"], where, got, stored, want, missing, extra, [list(x) for x in dup]), rep)
+                         "stored content is %s, so exactly %s is expected (missing %s, unexpected %s, duplicated %s); letters stored as bytes %s"
+                         % (p, node, ids[node], len(ids), ids, c["stores"], where, got, stored, want, missing, extra, [list(x) for x in dup], c.get("alphabet") or "themselves"), rep)
         if i % max(1, len(cases) // 5) == 0:
             ck.sample({"ring_ids": c["ids"], "stores": c["stores"], "content": c["content"], "key_held_by_node_index": where,
                        "distinct_owners": len(owners), "answers": [[n_, exp[pi][0], got] for n_, pi, got, _ in o["lists"][:4]]})
@@ -178,7 +183,7 @@ def run(ck):
                "declared answer for the prefixes '', a, ab, abc, b, c; quick runs a seeded sample of 640 assignments (always including nothing / everything / one "
                "kind everywhere), thorough all of them; each is stored through a real ring of 1..4 nodes (ring sizes cycle; node ids uniformly random, inside "
                "random arcs between key identifiers, at key identifier +/- 1, or adjacent; memory and SQLite stores alternating, all-SQLite or random) by "
-               "Put / PrefixAppend (1 or 2 children) / Acquire asked at seeded nodes, and ListKeys is asked at every node for every prefix; "
+               "Put / PrefixAppend (1 or 2 children) / Acquire asked at seeded nodes, the letters stored as themselves or as the bytes ff/00/fe, 00/ff/80 (per ring), and ListKeys is asked at every node for every prefix; "
                "evaluations = (case, node, prefix) listings compared as multisets; non-trivial = cases that store at least one (key, kind); distinct = distinct (ring, content)")
     ck.assumptions += ["'stable ring' = a fixpoint of the real stabilize / checkPredecessor / fixFinger with background tasks parked (as in C01)",
                        "simple values are never empty (a key whose value was set to empty is listed as SIMPLE by SQLite: known finding of C16)",
